@@ -13,7 +13,6 @@ import McpModel.Negotiate.Props
 import McpModel.TypedTool.Props
 import McpModel.Preflight.Props
 import McpModel.Notify.Props
-import McpModel.EventStore.Driver
 import McpModel.ClientStream.Props
 import McpModel.ClientStream.AsBuilt
 -- (McpModel.ClientStream.Driver defines its own top-level `main`; it is built by the lean_exe drv_clientstream)
